@@ -184,56 +184,60 @@ def run(rep, tier, root=None):
                and n.func.attr == "append" and norm_text(n.func.value) == args_name]
     consumers = [n for n in ast.walk(mp.node) if isinstance(n, ast.Subscript) and norm_text(n.value) == consumed
                  and isinstance(n.ctx, ast.Load) and not _inside_listcomp(mp.node, n)]
-    if res_name is None or len(appends) != 1 or len(consumers) != 1:
-        rep.unknown("O2.positional-consumption", mp.fq, "expected one producer append and one indexed read of the results (%d/%d)"
-                    % (len(appends), len(consumers)), mp.where())
-        return
-    prod_loops = loops_enclosing(mp.node, appends[0])
-    cons_loops = loops_enclosing(mp.node, consumers[0])
-    init_args = [n for n in ast.walk(mp.node) if isinstance(n, ast.Assign) and norm_text(n.targets[0]) == args_name]
-    if len(init_args) != 1:
-        rep.unknown("O2.positional-consumption", mp.fq, "argument list is initialised %d times" % len(init_args), mp.where())
-        return
-    outer = loops_enclosing(mp.node, init_args[0])
-    po = prod_loops[len(outer):]
-    co = cons_loops[len(outer):]
-    rep.check([header(l) for l in prod_loops[:len(outer)]] == [header(l) for l in outer] and
-              [header(l) for l in cons_loops[:len(outer)]] == [header(l) for l in outer],
-              "O2.same-scope", mp.fq + ": list creation, map call and consumption share the same enclosing loops",
-              "producer loops %s / consumer loops %s / list creation loops %s" % ([header(l) for l in prod_loops], [header(l) for l in cons_loops],
-                                                                                [header(l) for l in outer]), mp.where(init_args[0]))
-    rep.check(len(po) == len(co) and len(po) > 0, "O2.positional-consumption", mp.fq + ": producer and consumer nests have the same depth",
-              "producer nest depth %d, consumer nest depth %d" % (len(po), len(co)), mp.where())
-    for k, (a, b) in enumerate(zip(po, co)):
-        rep.check(header(a) == header(b), "O2.positional-consumption", "%s: loop level %d: `for %s in %s` on both sides" % ((mp.fq, k) + header(a)),
-                  "producer iterates `for %s in %s` but consumer `for %s in %s`: results are read in a different order than they were "
-                  "submitted" % (header(a) + header(b)), mp.where(b))
-    idx = consumers[0].slice
-    cnt = norm_text(idx) if isinstance(idx, ast.Name) else None
-    if cnt is None:
-        # enumerate-style consumption is accepted when the index is the enumerate counter of a single flat loop
-        rep.unknown("O2.counter", mp.fq, "results are indexed by %s, not by a counter variable" % norm_text(idx), mp.where(consumers[0]))
-    else:
-        writes = [n for n in ast.walk(mp.node) if isinstance(n, (ast.Assign, ast.AugAssign)) and
-                  norm_text(n.targets[0] if isinstance(n, ast.Assign) else n.target) == cnt]
-        inits = [n for n in writes if isinstance(n, ast.Assign)]
-        incs = [n for n in writes if isinstance(n, ast.AugAssign)]
-        ok_init = len(inits) == 1 and norm_text(inits[0].value) == "0" and \
-            [header(l) for l in loops_enclosing(mp.node, inits[0])] == [header(l) for l in outer] and \
-            inits[0].lineno > res_assign.lineno - 10 ** 6
-        rep.check(ok_init, "O2.counter", mp.fq + ": counter reset to 0 where the result list is produced",
-                  "counter initialisations: %s (must be `= 0` once, at the nesting level where the list is created)" % [norm_text(n) for n in inits],
-                  mp.where(inits[0]) if inits else mp.where())
-        inner = co[-1] if co else None
-        ok_inc = len(incs) == 1 and inner is not None and incs[0] in inner.body and isinstance(incs[0].op, ast.Add) and \
-            norm_text(incs[0].value) == "1"
-        rep.check(ok_inc, "O2.counter", mp.fq + ": counter += 1 exactly once per innermost iteration, unconditionally",
-                  "counter increments: %s (must be one top-level `+= 1` in the innermost consumer loop)" % [norm_text(n) for n in incs],
-                  mp.where(incs[0]) if incs else mp.where())
-        if ok_inc:
-            use_line = consumers[0].lineno
-            rep.check(use_line < incs[0].lineno, "O2.counter", mp.fq + ": result read before the counter advances",
-                      "the counter is advanced before the result is read", mp.where(incs[0]))
+    # Two ways to decide that results are read back in submission order: the syntactic discipline of a for/append producer
+    # and a counter-indexed consumer (below), or - for any other spelling (comprehensions, iterators, zip) - the
+    # interpreter's sequence semantics, which resolves a positional read to the call made for *this* iteration only when
+    # producer and consumer nests are identical (checked after O4/O5 on the resolved block updates).
+    syntactic = res_name is not None and len(appends) == 1 and len(consumers) == 1
+    prod_loops = cons_loops = []
+    if syntactic:
+        prod_loops = loops_enclosing(mp.node, appends[0])
+        cons_loops = loops_enclosing(mp.node, consumers[0])
+        init_args = [n for n in ast.walk(mp.node) if isinstance(n, ast.Assign) and norm_text(n.targets[0]) == args_name]
+        if len(init_args) != 1:
+            syntactic = False
+    if syntactic:
+        outer = loops_enclosing(mp.node, init_args[0])
+        po = prod_loops[len(outer):]
+        co = cons_loops[len(outer):]
+        rep.check([header(l) for l in prod_loops[:len(outer)]] == [header(l) for l in outer] and
+                  [header(l) for l in cons_loops[:len(outer)]] == [header(l) for l in outer],
+                  "O2.same-scope", mp.fq + ": list creation, map call and consumption share the same enclosing loops",
+                  "producer loops %s / consumer loops %s / list creation loops %s" % ([header(l) for l in prod_loops], [header(l) for l in cons_loops],
+                                                                                    [header(l) for l in outer]), mp.where(init_args[0]))
+        rep.check(len(po) == len(co) and len(po) > 0, "O2.positional-consumption", mp.fq + ": producer and consumer nests have the same depth",
+                  "producer nest depth %d, consumer nest depth %d" % (len(po), len(co)), mp.where())
+        for k, (a, b) in enumerate(zip(po, co)):
+            rep.check(header(a) == header(b), "O2.positional-consumption", "%s: loop level %d: `for %s in %s` on both sides" % ((mp.fq, k) + header(a)),
+                      "producer iterates `for %s in %s` but consumer `for %s in %s`: results are read in a different order than they were "
+                      "submitted" % (header(a) + header(b)), mp.where(b))
+        idx = consumers[0].slice
+        cnt = norm_text(idx) if isinstance(idx, ast.Name) else None
+        if cnt is None:
+            # enumerate-style consumption is accepted when the index is the enumerate counter of a single flat loop
+            rep.unknown("O2.counter", mp.fq, "results are indexed by %s, not by a counter variable" % norm_text(idx), mp.where(consumers[0]))
+        else:
+            writes = [n for n in ast.walk(mp.node) if isinstance(n, (ast.Assign, ast.AugAssign)) and
+                      norm_text(n.targets[0] if isinstance(n, ast.Assign) else n.target) == cnt]
+            inits = [n for n in writes if isinstance(n, ast.Assign)]
+            incs = [n for n in writes if isinstance(n, ast.AugAssign)]
+            ok_init = len(inits) == 1 and norm_text(inits[0].value) == "0" and \
+                [header(l) for l in loops_enclosing(mp.node, inits[0])] == [header(l) for l in outer] and \
+                inits[0].lineno > res_assign.lineno - 10 ** 6
+            rep.check(ok_init, "O2.counter", mp.fq + ": counter reset to 0 where the result list is produced",
+                      "counter initialisations: %s (must be `= 0` once, at the nesting level where the list is created)" % [norm_text(n) for n in inits],
+                      mp.where(inits[0]) if inits else mp.where())
+            inner = co[-1] if co else None
+            ok_inc = len(incs) == 1 and inner is not None and incs[0] in inner.body and isinstance(incs[0].op, ast.Add) and \
+                norm_text(incs[0].value) == "1"
+            rep.check(ok_inc, "O2.counter", mp.fq + ": counter += 1 exactly once per innermost iteration, unconditionally",
+                      "counter increments: %s (must be one top-level `+= 1` in the innermost consumer loop)" % [norm_text(n) for n in incs],
+                      mp.where(incs[0]) if incs else mp.where())
+            if ok_inc:
+                use_line = consumers[0].lineno
+                rep.check(use_line < incs[0].lineno, "O2.counter", mp.fq + ": result read before the counter advances",
+                          "the counter is advanced before the result is read", mp.where(incs[0]))
+
 
     # ---------------------------------------------------------------- O3
     reach = _reachable(ix, fx, worker)
@@ -269,6 +273,17 @@ def run(rep, tier, root=None):
     sp_calls = [c for c in Isp.call_log if c[0] == sp.fq and c[1].split(".")[-1] == "wfs_covariance"]
     mp_tuples = [c[2][0] for c in Imp.call_log if c[0] == mp.fq and c[1].endswith(".append") and c[2] and isinstance(c[2][0], tuple)
                  and len(c[2][0]) == len(wc.params)]
+    if len(mp_tuples) != 1:
+        # no for/append producer: read the tuple from the per-pair call the block updates were resolved to
+        srcs = []
+        for s_ in Imp.store_log:
+            if s_[0] == mp.fq and s_[1] == "self.covariance_matrix" and isinstance(s_[3], Rat):
+                for a_ in find_atoms(s_[3], lambda t: isinstance(t, Fn) and t.name == "call:" + worker.fq):
+                    if not any(a_ == b_ for b_ in srcs):
+                        srcs.append(a_)
+        mp_tuples = [a_.args[0] for a_ in srcs if a_.args and isinstance(a_.args[0], tuple) and len(a_.args[0]) == len(wc.params)]
+        if not mp_tuples:
+            mp_tuples = [tuple(a_.args) for a_ in srcs if len(a_.args) == len(wc.params)]
     if len(sp_calls) != 1 or len(mp_tuples) != 1:
         rep.unknown("O4.same-arguments", mp.fq, "expected one direct wfs_covariance call and one argument tuple handed to the pool (%d/%d)"
                     % (len(sp_calls), len(mp_tuples)), mp.where())
@@ -295,7 +310,7 @@ def run(rep, tier, root=None):
         PAIR = Rat.sym("<pair>", ("array",))
 
         def f(a):
-            if isinstance(a, Fn) and a.name == "call:" + wc.fq:
+            if isinstance(a, Fn) and a.name in ("call:" + wc.fq, "call:" + worker.fq):
                 return PAIR
             if isinstance(a, Fn) and a.name == "getitem" and isinstance(a.args[0], Rat):
                 inner = a.args[0].single_atom()
@@ -330,6 +345,15 @@ def run(rep, tier, root=None):
             it = ent[0][3]
             out.append(vkey((it.lo, it.hi, it.step)) if hasattr(it, "lo") else repr(it))
         return out
+    if not syntactic:
+        resolved = bool(u2) and all(isinstance(y[2], Rat) and not has_unknown(y[2]) and
+                                    any(isinstance(a_, Sym) and a_.name == "<pair>" for a_ in y[2].atoms(True)) for y in u2)
+        if resolved:
+            rep.ok("O2.positional-consumption", mp.fq + ": every block update reads the result of the call made for its own (layer, pair)",
+                   "resolved by the interpreter's sequence semantics: producer and consumer nests enumerate the same pairs in the same order")
+        else:
+            rep.unknown("O2.positional-consumption", mp.fq, "results are neither read by a counter over a for/append list nor resolvable as a "
+                        "positional read of a sequence produced by an identical loop nest", mp.where())
     s1, s2 = space(Isp, sp, u1), space(Imp, mp, u2)
     rep.check(s1 is not None and s1 == s2, "O5.same-order", "both copies accumulate layer-major over the same pair order",
               "iteration spaces differ: single-process %s, pool consumer %s" % (s1, s2), sp.where())
@@ -429,7 +453,7 @@ def run(rep, tier, root=None):
                                   "the worker count is used outside the pool construction", mp.where(st))
     if ok8:
         rep.ok("O8.dispatch-only", cls.fq + ": thread count only selects the copy / sizes the pool")
-    rep.sample({"producer_loops": [header(l) for l in prod_loops], "consumer_loops": [header(l) for l in cons_loops],
+    rep.sample({"producer_loops": [header(l) for l in prod_loops], "consumer_loops": [header(l) for l in cons_loops], "o2_form": "syntactic" if syntactic else "sequence semantics",
                 "worker": worker.fq, "reachable_from_worker": [f.fq for f in reach]})
     rep.floor("C03 obligations", len(rep.obligations), 35)
 
